@@ -5,7 +5,7 @@
   (`wfOk_sound`).
 -/
 import ExoModel.WfTie
-import ExoModel.Lemmas.WfShapes9
+import ExoModel.Lemmas.WfShapes12
 import ExoModel.Lemmas.WfShapesAlpha
 
 namespace Exo.WfTie
@@ -100,6 +100,34 @@ theorem lo_multDim (hi lo : Nat) : LocalOk (multDim hi lo) (fun _ => multDimOk) 
 theorem lo_resizeDim (d : Nat) (size off : Expr) :
     LocalOk (resizeDim d size off) (fun Γ => resizeDimOk Γ size off) :=
   fun Γ ss r hr ho hw => resizeDim_local d size off Γ ss r hr ho hw
+
+theorem lo_commute (s' : Stmt) : LocalOk (commuteExprWith s') always :=
+  fun Γ ss r hr _ hw => commuteExpr_local s' Γ ss r hr hw
+theorem lo_reassoc (s' : Stmt) : LocalOk (reassocExprWith s') always :=
+  fun Γ ss r hr _ hw => reassocExpr_local s' Γ ss r hr hw
+theorem lo_recompute (io ii : Sym) (ohi : Expr) (q : Int) :
+    LocalOk (divideWithRecompute io ii ohi q) (fun Γ => divideRecomputeOk Γ io ii ohi) :=
+  fun Γ ss r hr ho hw => divideWithRecompute_local io ii ohi q Γ ss r hr ho hw
+theorem lo_stageMem (x xs : Sym) (w : List WAcc) (n : Nat) (iters : List Sym)
+    (accum load store : Bool) (gl gs : Option Expr) (B' : List Stmt) :
+    LocalOk (stageMem x xs w n iters accum load store gl gs B')
+      (fun Γ => stageMemOk Γ x xs w n iters accum load store gl gs B') :=
+  fun Γ ss r hr ho hw => stageMem_local x xs w n iters accum load store gl gs B' Γ ss r hr ho hw
+
+theorem stageCands_sound (path : Path) (n : Nat) (accum load store : Bool) (before sb : List Stmt)
+    (xs : Sym) (sh : List Expr) (sa : List Stmt) :
+    ∀ c ∈ stageCands path n accum load store before sb xs sh sa, LocalOk c.f c.ok := by
+  intro c hc
+  unfold stageCands at hc
+  simp only [List.mem_map] at hc
+  obtain ⟨⟨x, w, iters⟩, _, rfl⟩ := hc
+  exact lo_stageMem _ _ _ _ _ _ _ _ _ _ _
+
+theorem lo_rearrange (perm : List Nat) : LocalOk (rearrangeDim perm) (fun _ => rearrangeDimOk perm) :=
+  fun Γ ss r hr ho hw => rearrangeDim_local perm Γ ss r hr ho hw
+
+theorem lo_reuse (x : Sym) (b : Bool) : LocalOk (reuseBuffer x b) (fun Γ => reuseBufferOk Γ x) :=
+  fun Γ ss r hr ho hw => reuseBuffer_local x b Γ ss r hr ho hw
 
 theorem shapeDivide_sound (tail : Nat) (path : Path) (k : Nat) (sb sa : List Stmt) (sh : Shape)
     (h : shapeDivide tail path k sb sa = .ok sh) : LocalOk sh.f sh.ok := by
@@ -251,10 +279,46 @@ theorem shapeOf_sound (name : String) (path : Path) (k : Nat) (flag : Bool)
       · rw [if_pos h1] at h
         cases h; exact lo_multDim _ _
       rw [if_neg h1] at h; clear h1
+      by_cases h1 : name = "rearrange_dim"
+      · rw [if_pos h1] at h
+        split at h <;> first | (cases h; exact lo_rearrange _) | cases h
+      rw [if_neg h1] at h; clear h1
       by_cases h1 : name = "resize_dim"
       · rw [if_pos h1] at h
         repeat' (split at h)
         all_goals first | (cases h; exact lo_resizeDim _ _ _) | cases h
+      rw [if_neg h1] at h; clear h1
+      by_cases h1 : name = "commute_expr"
+      · rw [if_pos h1] at h
+        split at h <;> first | (cases h; exact lo_commute _) | cases h
+      rw [if_neg h1] at h; clear h1
+      by_cases h1 : name = "left_reassociate_expr"
+      · rw [if_pos h1] at h
+        split at h <;> first | (cases h; exact lo_reassoc _) | cases h
+      rw [if_neg h1] at h; clear h1
+      by_cases h1 : name = "divide_with_recompute"
+      · rw [if_pos h1] at h
+        split at h <;> first | (cases h; exact lo_recompute _ _ _ _) | cases h
+      rw [if_neg h1] at h; clear h1
+      by_cases h1 : name = "stage_mem" ∨ name = "stage_mem_all"
+      · rw [if_pos h1] at h
+        split at h
+        · split at h
+          · rename_i c hfind
+            cases h
+            have hmem := List.mem_of_find?_eq_some hfind
+            split at hmem
+            · exact stageCands_sound _ _ _ _ _ _ _ _ _ _ _ hmem
+            · rcases List.mem_append.1 hmem with hm | hm
+              · exact stageCands_sound _ _ _ _ _ _ _ _ _ _ _ hm
+              · exact stageCands_sound _ _ _ _ _ _ _ _ _ _ _ hm
+          · cases h
+        · cases h
+      rw [if_neg h1] at h; clear h1
+      by_cases h1 : name = "reuse_buffer"
+      · rw [if_pos h1] at h
+        repeat' (split at h)
+        all_goals first | (cases h; exact lo_reuse _ _) | cases h
       rw [if_neg h1] at h; clear h1
       cases h
 
